@@ -549,8 +549,17 @@ func c10Run(c *Ctx) {
 						t    *Tree
 					}{"associativity (root)", r})
 				}
+				type alt2 struct{ rule, text string }
+				var texts []alt2
 				for _, a := range alts {
-					e2 := a.t.RenderMin(v)
+					texts = append(texts, alt2{a.rule, a.t.RenderMin(v)})
+				}
+				// an optional blank: '+' written directly against WITH, where this tree accepts that
+				if g := strings.ReplaceAll(e1, "+ WITH", "+WITH"); g != e1 && Valid1(g) == 1 {
+					texts = append(texts, alt2{"blank between '+' and WITH removed", g})
+				}
+				for _, a := range texts {
+					e2 := a.text
 					if e2 == e1 {
 						continue
 					}
@@ -568,7 +577,7 @@ func c10Run(c *Ctx) {
 			}
 		}
 	}
-	c.Bound("variant_rewrites", map[string]any{"sets": vs, "max_leaves": 3, "rewrites": "operand order at every operator; regrouping at the root", "observation": "Satisfies under every allowed list of <= 3 variants (two operands) / every single variant (three operands) + the set ExtractLicenses returns"})
+	c.Bound("variant_rewrites", map[string]any{"sets": vs, "max_leaves": 3, "rewrites": "operand order at every operator; regrouping at the root; the blank between '+' and WITH removed (where this tree accepts that)", "observation": "Satisfies under every allowed list of <= 3 variants (two operands) / every single variant (three operands) + the set ExtractLicenses returns"})
 }
 
 // ---------------------------------------------------------------- supervisor side: walk every edge
